@@ -42,11 +42,18 @@ impl ForwardAttrs<'_> {
     }
 }
 
+/// The local that holds the forwarded field's value in generated code; prefixed like the
+/// locals of ordinary fields so that it cannot shadow a user's path (`with = attrs`).
+fn local(field: &ForwardedField) -> syn::Ident {
+    use syn::ext::IdentExt;
+    quote::format_ident!("__darling_field_{}", field.ident.unraw())
+}
+
 pub struct Declaration<'a>(pub &'a ForwardedField);
 
 impl ToTokens for Declaration<'_> {
     fn to_tokens(&self, tokens: &mut proc_macro2::TokenStream) {
-        let ident = &self.0.ident;
+        let ident = local(self.0);
         tokens.append_all(quote! {
             let mut __fwd_attrs: ::darling::export::Vec<::darling::export::syn::Attribute> = vec![];
             let mut #ident: ::darling::export::Option<_> = ::darling::export::None;
@@ -58,7 +65,8 @@ pub struct ValuePopulator<'a>(pub &'a ForwardedField);
 
 impl ToTokens for ValuePopulator<'_> {
     fn to_tokens(&self, tokens: &mut proc_macro2::TokenStream) {
-        let ForwardedField { ident, with } = self.0;
+        let ForwardedField { with, .. } = self.0;
+        let ident = local(self.0);
         let initializer_expr = match with {
             Some(with) => quote_spanned!(with.span()=> __errors.handle(#with(__fwd_attrs))),
             None => quote!(::darling::export::Some(__fwd_attrs)),
@@ -72,7 +80,8 @@ pub struct Initializer<'a>(pub &'a ForwardedField);
 impl ToTokens for Initializer<'_> {
     fn to_tokens(&self, tokens: &mut proc_macro2::TokenStream) {
         let ident = &self.0.ident;
-        tokens.append_all(quote!(#ident: #ident.expect("Errors were already checked"),));
+        let local = local(self.0);
+        tokens.append_all(quote!(#ident: #local.expect("Errors were already checked"),));
     }
 }
 
